@@ -215,6 +215,11 @@ def check_run(at, P, ps, pg, make_ins, label, records, index, rid, V):
                 records.append(dict(id=rid, kind="sum", total=FX.fix(eligv), parts=FX.fixseq(parts)))
                 index[rid] = dict(label=label, what="eligible = current size of the targeted compartments", prog=prog, ti=ti, eligible=eligv, parts=parts)
                 rid += 1
+                if pr.saturation.has_data and prog not in ins.coverage:
+                    sat_t = float(pr.saturation.interpolate(np.array([m.t[ti]]), method="previous")[0])
+                    records.append(dict(id=rid, kind="le", a=FX.fix(covv), b=FX.fix(min(1.0, sat_t))))
+                    index[rid] = dict(label=label, what="coverage in force vs the saturation level of that year", prog=prog, ti=ti, cov=covv, saturation=sat_t)
+                    rid += 1
                 if not pr.saturation.has_data and prog not in ins.coverage:
                     records.append(dict(id=rid, kind="cov", cov=FX.fix(covv), cap=FX.fix(capv), elig=FX.fix(eligv)))
                     index[rid] = dict(label=label, what="coverage from capacity and eligible", prog=prog, ti=ti, cov=covv, cap=capv, elig=eligv)
@@ -281,12 +286,20 @@ def run(prop, tier):
             "generated: spending": lambda: at.ProgramInstructions(start_year=2002.0, alloc=pg),
             "generated: coverage overwrites above 1/year, off-grid start, stop year": lambda: at.ProgramInstructions(start_year=2001.0 + dt / 3, stop_year=2009.0 + dt / 2, alloc=pg,
                                                                                                                   coverage={"P2": TimeSeries([2001.0, 2006.0], [2.0, 0.5]), "P1": 0.625}),
+            "generated: spending, saturation falling over time": lambda: at.ProgramInstructions(start_year=2001.0, alloc=pg),
             "generated: scalar capacity and zero spending": lambda: at.ProgramInstructions(start_year=2002.0, alloc={"P1": 0, "P2": TimeSeries([2002.0, 2007.0], [90.0, 600.0])}, capacity={"P1": 100.0}),
         }
         for vname, mk in variants.items():
             label = dict(model="generated dt=%g" % dt, instructions=vname)
+            pg_ = pg
+            if "saturation" in vname:
+                import sciris as sc
+
+                pg_ = sc.dcp(pg)
+                pg_.programs["P1"].saturation = TimeSeries([2000.0, 2004.0, 2008.0], [0.9, 0.5, 0.25], units="N.A.")
+                pg_.programs["P1"].spend_data = TimeSeries(assumption=3000.0, units="$/year")
             try:
-                rid, nact = check_run(at, P, ps, pg, mk, label, records, index, rid, V)
+                rid, nact = check_run(at, P, ps, pg_, (mk if pg_ is pg else (lambda pg_=pg_: at.ProgramInstructions(start_year=2001.0, alloc=pg_))), label, records, index, rid, V)
                 cov["runs"].append(dict(label=label, active_steps=nact))
             except Exception as ex:
                 V.violation("C13 run with programs raised %s" % type(ex).__name__, dict(label=label, error=str(ex)[:300]))
